@@ -10,7 +10,16 @@
      slow <size> <marks>        -> Model.alloc (the composed slow path), state updated:
                                    "R <mf> <sf> F <fl after the sweep> G <new heap size | -> A <hi> <off> | oom | stuck"
                                    R/F come from running Model.gc on the same pre-state; G from comparing heap counts
-   <marks> = per heap the ascending offsets of marked objects "o,o,o" joined by "|" ("-" for none). *)
+   <marks> = per heap the ascending offsets of marked objects "o,o,o" joined by "|" ("-" for none).
+   round 3:
+     image <free> <max> <sizes> -> the state of a loaded image (Image.packed_heap_make on the packed object sizes
+                                   "s,s,s" ascending, requested free size <free>), state updated:
+                                   "<malloc size> <heap size> F <free list>"
+     roots reset                -> "ok"     (empty preservatives list, no frames)
+     roots P h:o | R h:o | push h:o,h:o | pop   -> Image.rstep applied; answer = the preservatives list "h:o,h:o" (head first)
+     roots fixed h:o,h:o        -> sets the other roots (the harness's own: its temp vector)
+     roots frames               -> the frames, innermost first, "h:o,h:o|h:o"
+     roots closure <graph>      -> the objects reachable from Image.root_list through <graph> = "h:o>h:o,h:o;..." , sorted *)
 open Model
 open Common
 
@@ -69,7 +78,38 @@ let load_heap (d : string) : heap =
     { hsize = zi (int_of_string hs); hnodes = nodes }
   | _ -> failwith "bad heap"
 
+let rts : roots ref = ref { pres = []; frames = []; fixed = [] }
+let oaddr_of (t : string) : (z * z) = match String.split_on_char ':' t with
+  | [a; b] -> (zi (int_of_string a), zi (int_of_string b))
+  | _ -> failwith "bad address"
+let oaddrs (t : string) : (z * z) list =
+  if t = "-" || t = "" then [] else List.map oaddr_of (String.split_on_char ',' t)
+let show_oaddrs (l : (z * z) list) : string =
+  if l = [] then "-" else String.concat "," (List.map (fun (a, b) -> soz a ^ ":" ^ soz b) l)
+let rec nat_of_int (i : int) : nat = let rec go acc i = if i <= 0 then acc else go (S acc) (i - 1) in go O i
+
 let handle = function
+  | ["image"; free; mx; sizes] ->
+    let objs = if sizes = "-" then [] else List.map (fun t -> (zi (int_of_string t), false)) (String.split_on_char ',' sizes) in
+    let (h, msize) = packed_heap_make objs (zi (int_of_string free)) in
+    st := image_state objs (zi (int_of_string free)) (zi (int_of_string mx));
+    soz msize ^ " " ^ soz h.hsize ^ " F " ^ show_fl !st
+  | ["roots"; "reset"] -> rts := { pres = []; frames = []; fixed = [] }; "ok"
+  | ["roots"; "P"; a] -> rts := rstep !rts (RPreserve (oaddr_of a)); show_oaddrs (!rts).pres
+  | ["roots"; "R"; a] -> rts := rstep !rts (RRelease (oaddr_of a)); show_oaddrs (!rts).pres
+  | ["roots"; "push"; l] -> rts := rstep !rts (RPush (oaddrs l)); show_oaddrs (!rts).pres
+  | ["roots"; "fixed"; l] -> rts := { pres = (!rts).pres; frames = (!rts).frames; fixed = oaddrs l }; show_oaddrs (!rts).pres
+  | ["roots"; "pop"] -> rts := rstep !rts RPop; show_oaddrs (!rts).pres
+  | ["roots"; "frames"] -> String.concat "|" (List.map show_oaddrs (!rts).frames)
+  | ["roots"; "closure"; g] ->
+    let tbl = Hashtbl.create 64 in
+    if g <> "-" then List.iter (fun e -> match String.split_on_char '>' e with
+        | [a; l] -> Hashtbl.replace tbl (oaddr_of a) (oaddrs l)
+        | _ -> failwith "bad graph") (String.split_on_char ';' g);
+    let sl a = (try Hashtbl.find tbl a with Not_found -> []) in
+    let n = Hashtbl.fold (fun _ l acc -> acc + 1 + List.length l) tbl 0 + List.length (root_list !rts) + 1 in
+    let c = closure (nat_of_int (2 * n + 2)) sl (root_list !rts) [] in
+    show_oaddrs (List.sort compare (List.map (fun (a, b) -> (iz a, iz b)) c) |> List.map (fun (a, b) -> (zi a, zi b)))
   | ["load"; mx; hs] ->
     st := { heaps = List.map load_heap (String.split_on_char '|' hs); max_size = zi (int_of_string mx) }; "ok"
   | ["init"; size; mx] -> st := init (zi (int_of_string size)) (zi (int_of_string mx)); "ok"
